@@ -303,7 +303,7 @@ pub fn compile(p: &Plan) -> Script {
 }
 
 pub fn execute(plan: &Plan, trace: bool) -> Exec {
-    let script = compile(plan);
+    let script = rc::with_stretch(plan.base.seed, plan.base.stretch_pm, || compile(plan));
     let (mut ex, obs) = run_script(&script, trace, "C13");
     let Some(obs) = obs else { return ex };
     ex.nontrivial = !plan.ins.is_empty();
